@@ -140,6 +140,7 @@ func (s *Storage) ingest(expected ocispec.Descriptor, content io.Reader) (path s
 	}
 
 	path = fp.Name()
+	ingestPath := path // the error returns below reset the named result path
 	defer func() {
 		// close the temp file and check close error
 		if err := fp.Close(); err != nil && ingestErr == nil {
@@ -148,7 +149,7 @@ func (s *Storage) ingest(expected ocispec.Descriptor, content io.Reader) (path s
 
 		// remove the temp file in case of error
 		if ingestErr != nil {
-			os.Remove(path)
+			os.Remove(ingestPath)
 		}
 	}()
 
